@@ -189,15 +189,32 @@ fn run_case(c: &Value, rng: &mut StdRng, rep: &mut Report) {
                 regions.push((0x7000_0000, (0..200).map(|_| rng.gen()).collect()));
                 regions.push((0x7100_0000, (0..64).map(|_| rng.gen()).collect()));
             }
-            for (base, bytes) in &regions {
-                let mem = synth::Memory::with_section(Section::with_endian(endian).append_bytes(bytes), *base);
-                d = if mem64 { d.add_memory64(mem) } else { d.add_memory(mem) };
+            let pad = m["pad"].as_u64().unwrap_or(0);
+            if !mem64 && pad == 4 && !regions.is_empty() {
+                // a hand-placed MINIDUMP_MEMORY_LIST: count, 4 bytes of padding, then the descriptors
+                let secs: Vec<Section> = regions.iter().map(|(_, bytes)| Section::with_endian(endian).append_bytes(bytes)).collect();
+                let mut list = Section::with_endian(endian).D32(regions.len() as u32).D32(0);
+                for ((base, bytes), sec) in regions.iter().zip(secs.iter()) {
+                    list = list.D64(*base).D32(bytes.len() as u32).D32(sec.file_offset());
+                }
+                d = d.add_stream(synth::SimpleStream { stream_type: 5, section: list });
+                for sec in secs {
+                    d = d.add(sec);
+                }
+            } else {
+                for (base, bytes) in &regions {
+                    let mem = synth::Memory::with_section(Section::with_endian(endian).append_bytes(bytes), *base);
+                    d = if mem64 { d.add_memory64(mem) } else { d.add_memory(mem) };
+                }
             }
             // threads (hand-placed list so that the stack descriptor can be null)
             let mut tw: Vec<(u32, u64, Option<Vec<u8>>)> = vec![]; // id, teb, expected stack bytes
             if facet == "threads" {
                 let stacks = m["stacks"].as_array().unwrap();
                 let mut list = Section::with_endian(endian).D32(stacks.len() as u32);
+                if pad == 4 {
+                    list = list.D32(0);
+                }
                 let mut extra: Vec<Section> = vec![];
                 for (k, s) in stacks.iter().enumerate() {
                     let id = if m["dupIds"].as_bool().unwrap() { 7 } else { 100 + k as u32 };
